@@ -432,7 +432,19 @@ func ruleSpanSiblings(c *Ctx) {
 			}
 			l, ok1 := lin(bo.X, 0)
 			r, ok2 := lin(bo.Y, 0)
-			if !ok1 || !ok2 || (l.a == 0 && l.b == 0 && r.a == 0 && r.b == 0) {
+			var touches func(v ssa.Value, d int) bool
+			touches = func(v ssa.Value, d int) bool {
+				if v == ssa.Value(ps) || v == ssa.Value(pe) {
+					return true
+				}
+				if x, ok := v.(*ssa.BinOp); ok && d < 6 {
+					return touches(x.X, d+1) || touches(x.Y, d+1)
+				}
+				return false
+			}
+			// a test in which the range cancels out (start − start == 1) is still the formatter's test: it is kept,
+			// as the constant form it is, and disagrees with the sibling's
+			if !ok1 || !ok2 || (l.a == 0 && l.b == 0 && r.a == 0 && r.b == 0 && !touches(bo.X, 0) && !touches(bo.Y, 0)) {
 				continue
 			}
 			f := form{a: l.a - r.a, b: l.b - r.b, k: l.k - r.k, op: bo.Op}
